@@ -220,3 +220,25 @@ pub fn rm_ok_backward(list: &mut std::collections::VecDeque<Vec<u8>>, e: &[u8], 
     }
     removed
 }
+
+// ---- length guards that are off by k for the index they protect (linear forms) -----------
+pub fn bad_len_guard_too_short(data: &[u8], hdr: usize, s: &str) -> Option<u8> {
+    let n: usize = s.parse::<usize>().ok()?.min(1000);
+    let end = hdr + n;
+    if data.len() < end {
+        return None;
+    }
+    Some(data[end])
+}
+
+pub fn ok_len_guard_exact(data: &[u8], hdr: usize, s: &str) -> Option<u8> {
+    let n: usize = s.parse::<usize>().ok()?.min(1000);
+    let end = hdr + n;
+    if data.len() < end + 2 {
+        return None;
+    }
+    if data[end] != b'\r' || data[end + 1] != b'\n' {
+        return None;
+    }
+    Some(data[end])
+}
